@@ -269,6 +269,16 @@ func (s *Screen) Expect(caps Caps) []Want {
 			if w.Tail {
 				continue
 			}
+			if x > 0 {
+				// right of a locked cell that holds a wide rune: the rune is never painted while
+				// locked, whether it "covers" this column then is outside the statement
+				if l := s.At(x-1, y); l.Lock {
+					if _, lw := Shown(l.R); lw == 2 {
+						w.Skip = true
+						continue
+					}
+				}
+			}
 			r, wd := Shown(c.R)
 			st := c.S
 			if st.IsZero() {
@@ -319,6 +329,13 @@ func (s *Screen) Expect(caps Caps) []Want {
 						cc.Colors = 256
 					}
 					w.Ul = Resolve(st.ULColor, cc)
+					// the underline-colour sequence takes a 256-colour index on its own: an index
+					// beyond the entry's colour count may also be passed through unchanged
+					if !st.ULColor.IsRGB() {
+						if idx := int32(st.ULColor & 0xffff); idx < 256 {
+							w.Ul = append(w.Ul, vt.Color{Kind: vt.Indexed, V: idx})
+						}
+					}
 				}
 			} else {
 				w.Ul = []vt.Color{{}}
